@@ -533,7 +533,10 @@ class CooperativeTask:
                 self.pause()
 
                 def failLater(failure: Failure) -> None:
-                    self._completeWith(TaskFailed(), failure)
+                    # The task may have been stopped while it was waiting; a
+                    # task completes only once.
+                    if self._completionState is None:
+                        self._completeWith(TaskFailed(), failure)
 
                 result.addCallbacks(lambda result: self.resume(), failLater)
 
